@@ -15,7 +15,7 @@ tvars == <<hdr, prev, cur, mb, l, viol, stats>>
 
 Stat0 == [cases |-> 0, steps |-> 0, ss_steps |-> 0, sl_steps |-> 0, clipped |-> 0, unclipped |-> 0, braking |-> 0,
           boundary |-> 0, multilink |-> 0, astride |-> 0, curved |-> 0, negerr |-> 0, othererr |-> 0, slerr |-> 0,
-          rejected |-> 0, strap |-> 0, strap_drift |-> 0, strap_err |-> 0, getters |-> 0, inexact |-> 0,
+          rejected |-> 0, strap |-> 0, strap_rounded |-> 0, strap_drift |-> 0, strap_err |-> 0, getters |-> 0, inexact |-> 0,
           ss_runs |-> 0, sl_runs |-> 0, sl_arrived |-> 0]
 
 TInit == /\ l = 1 /\ viol = <<>> /\ stats = Stat0
@@ -33,27 +33,33 @@ Begin == /\ Rec[l].ev = "begin"
 (* header of a run: derived field `segs` (elevation segments in path coordinates) is computed once *)
 Hdr == /\ Rec[l].ev = "Hdr"
        /\ hdr' = [f \in (DOMAIN Rec[l]) \cup {"segs"} |-> IF f = "segs" THEN SegsOf(Rec[l].links) ELSE Rec[l][f]]
-       /\ prev' = Nil /\ cur' = Nil /\ mb' = Nil
+       /\ prev' = Nil /\ cur' = Nil /\ mb' = [neg |-> FALSE]
        /\ Report(Names(<< <<"ResTowed", Rec[l].mode = "ss" => ResTowedOf(hdr')>> >>))
        /\ stats' = [stats EXCEPT !.ss_runs = @ + B2N(Rec[l].mode = "ss"), !.sl_runs = @ + B2N(Rec[l].mode = "sl"),
                                  !.inexact = @ + B2N(Rec[l].mode = "ss" /\ ~Rec[l].exact)]
 
-(* a set-speed trace whose *first* point is negative is garbage for every relation except the     *)
-(* rejection itself (the train would start by moving backwards off the route)                      *)
-Garbage(h) == h.mode = "ss" /\ h.tv[1] < 0
+(* Step k of a set-speed run uses trace points k-1 and k: it must be refused iff one of them is negative (the   *)
+(* first trace point is never a step of its own: a negative first point makes step 1 the step to refuse).        *)
+NegAt(h, k) == k >= 1 /\ (h.tv[k + 1] < 0 \/ h.tv[k] < 0)
+(* Garbage in: a run that has already accepted a negative prescribed speed moves the train backwards under       *)
+(* forward-hinted caches and possibly off the route: only the rejection itself and the pure bookkeeping          *)
+(* relations (time, offset, back, distance) are judged on the rest of such a run.                                *)
+Garbage(h, m) == h.mode = "ss" /\ m.neg
 
-KinChecks(h, p, c) ==
+BookChecks(h, p, c) ==
   << <<"KinTime", KinTimeOf(h, p, c)>>, <<"KinOffset", KinOffsetOf(h, p, c)>>,
-     <<"KinBack", KinBackOf(h, c)>>, <<"KinDist", KinDistOf(h, p, c)>>,
-     <<"LocLink", LocLinkOf(h, c)>>, <<"LocSum", LocLinkOf(h, c) => LocSumOf(h, c)>>,
+     <<"KinBack", KinBackOf(h, c)>>, <<"KinDist", KinDistOf(h, p, c)>> >>
+KinChecks(h, p, c) ==
+  BookChecks(h, p, c) \o
+  << <<"LocLink", LocLinkOf(h, c)>>, <<"LocSum", LocLinkOf(h, c) => LocSumOf(h, c)>>,
      <<"LocRange", LocSumOf(h, c) => LocRangeOf(h, c)>> >>
 PwrChecks(h, p, c) ==
   << <<"FollowTime", FollowTimeOf(h, c)>>, <<"FollowSpeed", FollowSpeedOf(h, c)>>,
      <<"MassCompound", MassCompoundOf(c)>>, <<"PwrAccel", PwrAccelOf(h, c)>>,
-     <<"PwrRes", PwrResOf(h, c)>>, <<"PwrClip", PwrClipOf(p, c)>>,
+     \* (the initial record carries no forces yet: the first step has only one alignment to offer, so it is not judged)
+     <<"PwrRes", c.k = 1 \/ PwrResOf(h, c, c.F) \/ PwrResOf(h, c, p.F)>>, <<"PwrClip", PwrClipOf(p, c)>>,
      <<"PwrEnergy", PwrEnergyOf(h, p, c)>>, <<"PwrEnergyPos", PwrEnergyPosOf(h, p, c)>>,
-     <<"PwrEnergyNeg", PwrEnergyNegOf(h, p, c)>>,
-     <<"NegSpeedRejected", h.tv[c.k + 1] >= 0>> >>
+     <<"PwrEnergyNeg", PwrEnergyNegOf(h, p, c)>> >>
 (* a force record matches the definition at the state saved one step earlier or at its own state *)
 ResChecks(h, p, c) ==
   << <<"ResMass", ResMassOf(h, c)>>, <<"ResWeight", ResWeightOf(c)>>,
@@ -73,16 +79,19 @@ LedChecks(c) ==
 Step ==
   /\ Rec[l].ev = "Step"
   /\ LET c == Rec[l]  h == hdr  p == cur  ss == h.mode = "ss" IN
-     /\ cur' = c /\ prev' = cur /\ UNCHANGED <<hdr, mb>>
+     /\ cur' = c /\ prev' = cur /\ UNCHANGED hdr
+     /\ mb' = [neg |-> mb.neg \/ (ss /\ NegAt(h, c.k))]
      /\ IF c.ovf THEN Report(<<"QOverflow">>)
-        ELSE IF Garbage(h) THEN Report(Names(<< <<"NegSpeedRejected", c.k > 0>> >>))
         ELSE IF c.k = 0
         THEN \* the initial state: position bookkeeping only (nothing has been computed yet)
              Report(Names(<< <<"KinBack", KinBackOf(h, c)>> >>
                           \o (IF ss THEN << <<"FollowTime", FollowTimeOf(h, c)>>, <<"FollowSpeed", FollowSpeedOf(h, c)>> >> ELSE <<>>)))
+        ELSE IF Garbage(h, mb) \/ (ss /\ NegAt(h, c.k))
+        THEN \* an accepted step that had to be refused, or the rest of such a run
+             Report(Names(<< <<"NegSpeedRejected", ~NegAt(h, c.k)>> >> \o BookChecks(h, p, c)))
         ELSE Report(Names(KinChecks(h, p, c) \o LedChecks(c)
                           \o (IF ss THEN PwrChecks(h, p, c) \o ResChecks(h, p, c) ELSE <<>>)))
-     /\ stats' = IF c.k = 0 \/ c.ovf \/ Garbage(h) THEN stats ELSE
+     /\ stats' = IF c.k = 0 \/ c.ovf \/ Garbage(h, mb') THEN stats ELSE
           [stats EXCEPT !.steps = @ + 1, !.ss_steps = @ + B2N(ss), !.sl_steps = @ + B2N(~ss),
              !.clipped = @ + B2N(ss /\ Abs(c.pw - (c.pa + c.pr)) > 4),
              !.unclipped = @ + B2N(ss /\ Abs(c.pw - (c.pa + c.pr)) <= 4 /\ c.pw # 0),
@@ -97,9 +106,10 @@ StepErr ==
   /\ Rec[l].ev = "StepErr"
   /\ UNCHANGED <<hdr, prev, cur, mb>>
   /\ LET k == Rec[l].k  ss == hdr.mode = "ss"
-         neg == ss /\ k + 1 <= Len(hdr.tv) /\ hdr.tv[k + 1] < 0 IN
-     \* a set-speed run may only be refused at a step whose prescribed speed is negative
-     /\ Report(Names(<< <<"StepOk", ss => neg>> >>))
+         neg == ss /\ k + 1 <= Len(hdr.tv) /\ NegAt(hdr, k) IN
+     \* the negative-speed guard may only refuse a step whose prescribed speed is negative ("and not before");
+     \* refusals for other reasons (a consist that cannot deliver: empty battery ...) are counted, not judged
+     /\ Report(Names(<< <<"RefusedOnlyNegative", (ss /\ Rec[l].why = "neg") => neg>> >>))
      /\ stats' = [stats EXCEPT !.negerr = @ + B2N(neg), !.othererr = @ + B2N(ss /\ ~neg), !.slerr = @ + B2N(~ss)]
 
 Get ==
@@ -134,9 +144,10 @@ Strap ==
         /\ cur' = c /\ prev' = cur
         /\ mb' = [idf |-> r.idf + 1, idb |-> r.idb + 1]
         /\ Report(Names(<< <<"ResGrade", ResGradeOf(hdr, c, c)>>, <<"ResElevFront", ResElevFrontOf(hdr, c, c)>>,
-                           <<"ResGradeFront", ResGradeFrontOf(hdr, c, c)>>, <<"ResGradeBack", ResGradeBackOf(hdr, c, c)>>,
-                           <<"QExact", r.exact>> >>))
-        /\ stats' = [stats EXCEPT !.strap = @ + 1,
+                           <<"ResGradeFront", ResGradeFrontOf(hdr, c, c)>>, <<"ResGradeBack", ResGradeBackOf(hdr, c, c)>> >>))
+        \* a value that needed rounding to reach its lattice point is counted, not judged (last-ulp differences of an
+        \* algebraically equivalent formula are allowed)
+        /\ stats' = [stats EXCEPT !.strap = @ + 1, !.strap_rounded = @ + B2N(~r.exact),
                                   !.strap_drift = @ + B2N(m.idf # r.idf + 1 \/ m.idb # r.idb + 1 \/ m.rgl # r.val)]
      ELSE /\ Report(<<"StrapOk">>)          \* every emitted move lies inside the profile
           /\ UNCHANGED <<prev, cur, mb>>
